@@ -13,11 +13,12 @@ PROP = {'title': 'Random wrappers are transparent and stay within the requested 
                'mistranslated parameter changes the sequence for almost every seed and is also caught by the direct bound and '
                'both-ends-reached checks.',
  'level_note': 'the seed space (2^32 and more) cannot be exhausted: the claim holds for every seed in the stated set '
-               '([0,256) quick / [0,4096) thorough plus 2^31-1, 2^32, 2^64-1); oracle = libstdc++ std::minstd_rand / std::mt19937 and '
+               '([0,256) quick / [0,4096) thorough plus 2^31-1, 2^32, 2^32+1, 2^63, 2^64-1 -- the seed type of both engines is 64 bit '
+               'wide); oracle = libstdc++ std::minstd_rand / std::mt19937 and '
                'std::uniform_int_distribution / uniform_real_distribution / normal_distribution constructed by the harness',
  'binaries': [{'name': 'C20',
                'sources': ['harness/C20.cpp', 'harness/C20_unsigned.cpp', 'harness/C20_wrapped.cpp', 'harness/C20_enum.cpp',
-                           'harness/C20_real.cpp', 'harness/C20_container.cpp'],
+                           'harness/C20_real.cpp', 'harness/C20_normal.cpp', 'harness/C20_user.cpp', 'harness/C20_container.cpp'],
                'libs': [],
                'flavour': 'asan'}],
  'compile_probes': [{'name': 'basic_draw_with_param<uniform_int>', 'source': 'harness/C20_probe_draw_with_param.cpp', 'flags': []},
@@ -32,8 +33,12 @@ PROP = {'title': 'Random wrappers are transparent and stay within the requested 
          'enum} x intervals {all [a,b] with -8<=a<=b<=8 (0<=a<=b<=16 for unsigned types), 20 intervals touching the limits of the type, '
          'all sub-intervals of the enums} x seeds; make_uniform_enum(_advanced) for enums of size 1..9; make_uniform_indices(_advanced) '
          'and make_uniform_container(_advanced) for containers of size 0..6 (vector, const vector, vector<string>, deque, string, list); '
-         'uniform_real (32 (min,sup) pairs) and normal (16 (mean,stddev) pairs) over float/double/strong typedef, with and without '
-         'reset(); three variates sharing one generator; param() setter between draws; the raw generators (1300 draws, seed and '
+         'uniform_real (38 (min,sup) pairs) and normal (42 (mean,stddev) pairs) over float / double / long double / strong typedefs of '
+         'double and long double, with and without reset(); the parameter lists contain values that are not representable in double '
+         '(0.1L, 0.7L, 1/3.0L, 1+2^-60, 2^70+1) next to dyadic ones; seed-independent round-trip cases roundtrip<class<type>>(a, b): '
+         'parameters -> convert_from -> convert_to -> convert_from, param() and param() after param(set) carry exactly the given values, '
+         'for all pairs of a boundary list per type (integers: min, min+1, min/2, -8..8, max/2, max-1, max; reals: lowest, lowest/2, '
+         '+-denorm_min, +-min, epsilon, 0.1, 1/3, 0.7, 1, 1+epsilon, 1+2^-60, 2^70+1, max/2, max; enums: every enumerator); three variates sharing one generator; param() setter between draws; the raw generators (1300 draws, seed and '
          'seed_seq constructors). Every distribution case also checks the param() getter (fresh, after per-call draws, after '
          'param(set)) and Parameters::convert_to(std distribution) through convert_from(), and runs the histories: k=0..3 direct draws, '
          'then variate(gen,d), make_variate(gen,d), variate(gen,d.param()) draw 6 values each and d itself continues; after 1 and 3 '
